@@ -94,7 +94,13 @@ func verifyFns(g *Gen, keys []string, outDir, tier string, seed int) []*fnResult
 			all = append(all, r.Obs...)
 			continue
 		}
-		fn := g.fnIndex[k]
+		// "KEY#name": a secondary contract of function KEY - verified against the body, never used at
+		// call sites (callers see the contract under the plain key)
+		fk := k
+		if i := strings.Index(fk, "#"); i > 0 {
+			fk = fk[:i]
+		}
+		fn := g.fnIndex[fk]
 		if fn == nil {
 			r.Err = fmt.Errorf("%s: contract does not bind to any function in the loaded packages", k)
 			continue
@@ -152,7 +158,11 @@ func cmdVerify(args []string) {
 		keys = strings.Split(*fn, ",")
 	} else {
 		for k, c := range g.ct.C {
-			if c.Kind == "func" && !c.Assumed && g.fnIndex[k] != nil {
+			fk := k
+			if i := strings.Index(fk, "#"); i > 0 {
+				fk = fk[:i]
+			}
+			if c.Kind == "func" && !c.Assumed && g.fnIndex[fk] != nil {
 				keys = append(keys, k)
 			}
 			if c.Kind == "lemma" {
